@@ -29,9 +29,10 @@ pub fn parse_json_unbounded(txt: &str) -> Result<Value, serde_json::Error> {
     Ok(v)
 }
 /// A run that takes longer than this (wall clock) counts as hung and its worker is killed:
-/// 60 s in the quick tier, 240 s in the thorough tier (whose C14 runs issue ~10^5 salts per world
-/// and may share the machine with other jobs).
-static WATCHDOG: AtomicU64 = AtomicU64::new(60);
+/// 120 s in the quick tier (the slowest generated run takes 2-10 s on an idle machine, a multiple
+/// of that when the machine is shared), 300 s in the thorough tier (whose C14 runs issue ~10^5
+/// salts per world).
+static WATCHDOG: AtomicU64 = AtomicU64::new(120);
 #[allow(non_snake_case)]
 fn WATCHDOG_SECS() -> u64 {
     WATCHDOG.load(Ordering::Relaxed)
@@ -235,6 +236,8 @@ struct Agg {
     token_clash: Option<(u64, u64)>,
     /// environment variables the code under test asked for
     env_reads: BTreeSet<String>,
+    /// wall-clock seconds of the slowest single run and its index (watchdog margin)
+    slowest: (f64, u64),
 }
 
 impl Agg {
@@ -344,6 +347,7 @@ fn run_batch(check: &str, tier: &str, base: u64, first: u64, n: u64, workers: us
     // (run index, reply, the run indices this worker process executed before it — only for runs
     // that report a violation; needed when the code under test keeps state across worlds)
     let (tx, rx) = mpsc::channel::<(u64, Reply, Vec<u64>)>();
+    let (tx_t0, rx_t) = mpsc::channel::<(u64, f64)>();
     // (pid, busy since) per worker, for the watchdog
     let busy: Arc<Mutex<Vec<Option<(u32, Instant)>>>> = Arc::new(Mutex::new(vec![None; workers]));
     let start = Instant::now();
@@ -352,6 +356,7 @@ fn run_batch(check: &str, tier: &str, base: u64, first: u64, n: u64, workers: us
         let next = next.clone();
         let stop = stop.clone();
         let tx = tx.clone();
+        let tx_t = tx_t0.clone();
         let busy = busy.clone();
         let check = check.to_string();
         let tier = tier.to_string();
@@ -380,6 +385,7 @@ fn run_batch(check: &str, tier: &str, base: u64, first: u64, n: u64, workers: us
                 let wk = w.as_mut().unwrap();
                 busy.lock().unwrap()[wi] = Some((wk.pid(), Instant::now()));
                 let seed = run_seed(base, &check, idx);
+                let t_run = Instant::now();
                 let r = match &batch_env {
                     Some((k, v)) => wk.request(&json!({"cmd": "gen", "check": check, "seed": seed, "tier": tier, "env": {k.as_str(): v}})),
                     None => wk.request(&json!({"cmd": "gen", "check": check, "seed": seed, "tier": tier})),
@@ -390,6 +396,7 @@ fn run_batch(check: &str, tier: &str, base: u64, first: u64, n: u64, workers: us
                     Reply::Report(rep) if !rep.violations.is_empty() => hist.clone(),
                     _ => Vec::new(),
                 };
+                let _ = tx_t.send((idx, t_run.elapsed().as_secs_f64()));
                 let _ = tx.send((idx, r, prior));
                 hist.push(idx);
                 if dead {
@@ -450,6 +457,12 @@ fn run_batch(check: &str, tier: &str, base: u64, first: u64, n: u64, workers: us
     }
     for h in handles {
         let _ = h.join();
+    }
+    drop(tx_t0);
+    for (idx, secs) in rx_t {
+        if secs > pool.agg.slowest.0 {
+            pool.agg.slowest = (secs, idx);
+        }
     }
     wd_stop.store(true, Ordering::SeqCst);
     let _ = wd.join();
@@ -687,7 +700,7 @@ pub fn check_main(args: &[String]) -> i32 {
         eprintln!("unknown check {}", check);
         return 2;
     };
-    WATCHDOG.store(if tier == "thorough" { 240 } else { 60 }, Ordering::Relaxed);
+    WATCHDOG.store(if tier == "thorough" { 300 } else { 120 }, Ordering::Relaxed);
     let alt = alt_leg();
     if alt && (!cfg!(feature = "mock") || !ALT_LEG_CHECKS.contains(&check.as_str())) {
         println!("HARNESS-ERROR: the alternate build leg exists for {:?} and needs the sdsim-mock binary", ALT_LEG_CHECKS);
@@ -983,6 +996,7 @@ pub fn check_main(args: &[String]) -> i32 {
             "worker_crashes_or_hangs": agg.crashes.len(),
             "values_compared_for_uniqueness_across_runs": agg.tokens_seen,
             "environment_leg": env_leg,
+            "slowest_run": {"wall_s": agg.slowest.0, "run_index": agg.slowest.1, "watchdog_s": WATCHDOG_SECS()},
             "known_findings_hit": known_hits.keys().collect::<Vec<_>>(),
             "seam_level_preemption": std::env::var("SDSIM_NO_SEAM_PREEMPT").is_err(),
             "violation_signatures_seen": by_sig.iter().map(|(k, v)| json!({"signature": k, "runs": v.2})).collect::<Vec<_>>(),
